@@ -292,7 +292,8 @@ def add_real_literal_inputs(c, k, it, summary, known_inputs, rng=None):
 def struct_probe_command(corpus, n, k, kind, args):
     if kind != "struct":
         return None
-    return "struct %d %s %s" % (n, args[0], hx(render_item(corpus.defs[k], [])))
+    from .defs import plain_source
+    return "struct %d %s %s" % (n, args[0], hx(plain_source(corpus.defs[k])))
 
 
 def compare_struct(corpus, k, iobs, mobs):
